@@ -25,11 +25,13 @@ T0 = 1000.0
 
 
 class Err(Exception):
-    pass
+    def __bool__(self):
+        return False    # exceptions are user objects too: nothing may decide by their truthiness
 
 
 class Base(BaseException):
-    pass
+    def __bool__(self):
+        return False    # exceptions are user objects too: nothing may decide by their truthiness
 
 
 class TimeoutDriver:
